@@ -283,3 +283,16 @@ Theorem C15_code_jde_accept_only : forall (G P : Type) (g2p : G -> P) (f : P -> 
   jd_CR G P self' = accept_only par trial (jd_CR G P self) (jd_mutate_CR self).
 Proof. exact code_jde_accept_only. Qed.
 Print Assumptions C15_code_jde_accept_only.
+
+(* SHADE._append_archive and the row shuffle it uses (utils.random.sattolo_shuffle_2d), translated on every run, ARE the model's
+   append_archive: the archive never exceeds pop_size and holds only former archive members and replaced parents *)
+Theorem C15_code_SHADE_append_archive : forall (pop_size : nat) (archive worse : list (list Q)) ds, valid_draws ds ->
+  py_SHADE_append_archive (Z.of_nat pop_size) archive worse ds = append_archive [] pop_size archive worse ds.
+Proof. exact code_SHADE_append_archive. Qed.
+Print Assumptions C15_code_SHADE_append_archive.
+
+Theorem C15_src_SHADE_append_archive : forall (pop_size : nat) (archive worse : list (list Q)) ds a ds', valid_draws ds ->
+  py_SHADE_append_archive (Z.of_nat pop_size) archive worse ds = Some (a, ds') -> (length archive <= pop_size)%nat ->
+  (length a <= pop_size)%nat /\ (forall x, In x a -> In x archive \/ In x worse).
+Proof. exact src_SHADE_append_archive. Qed.
+Print Assumptions C15_src_SHADE_append_archive.
